@@ -180,7 +180,7 @@ def run(ctx, report):
         'attribute/key or arity error. D2: the result is a list of assignments, no assignment inside an expression, destinations are Id / slice of Id or '
         'Mem / Mem. D3: every sub-expression has a determinate width; operands of + - * & | ^ == agree; slices lie inside their operand; concatenation '
         'slots tile; conditional arms agree; source width = destination width unless a 1-bit flag receives a value provably in {0,1}. D4: no location is '
-        'written twice by one instruction. Uninterpreted operators (x87/SSE/system) are opaque: their width is not judged.')
+        'written twice by one instruction. D5: slice_rest and ExprAff.__init__ (the rewrite of a slice destination into a full-register concatenation) are evaluated on abstract operands: the rest intervals are exactly the complement of the slice and the concatenation tiles the register with the unchanged bits around the assigned value. Uninterpreted operators (x87/SSE/system) are opaque: their width is not judged.')
     report.not_decided = 'aliasing of distinct symbolic addresses; instruction forms outside the form model (SIB/16-bit addressing variants share the same lifter path).'
     report.assumptions.append('form model: sa/liftforms.py mirrors x86_mn._dis/special_opcodes operand dictionaries; validated at authoring time against the real '
                               'lifter (2949 templates identical, 25 error classes identical; tools/validate_lifter.py)')
@@ -217,12 +217,86 @@ def run(ctx, report):
                 R3.samples.append('%s %s: %s' % (inst.name, inst.form, show(res[-1])[:140]))
     if unknowns:
         raise AnalysisError('%d lifter instantiations are outside the modelled subset, e.g. %s' % (len(unknowns), unknowns[:3]))
+    # ---------------------------------------------------------------- D5 sub-register rewrite
+    R5 = report.rule('C11.D5', 'an assignment to a slice is rewritten into a full-width concatenation that tiles the destination', floor=300)
+    from ..consteval import Evaluator, Obj, Native, NotConst
+    ex = ctx.mod('expression')
+    sr = ex.func('slice_rest')
+    init = ex.method('ExprAff', '__init__')
+    n_sr = 0
+    for size in (8, 16, 32, 64):
+        for start in range(0, size):
+            for stop in range(start + 1, size + 1):
+                if size > 16 and (start % 8 or stop % 8) and not (stop - start == 1):
+                    continue      # byte-aligned slices and single bits for the wide registers; every slice for 8/16 bits
+                n_sr += 1
+                try:
+                    rest = Evaluator({}).call_user(sr, [size, start, stop])
+                except NotConst as e:
+                    raise AnalysisError('slice_rest is outside the evaluable subset: %s' % e)
+                want = ([(0, start)] if start else []) + ([(stop, size)] if stop < size else [])
+                inst = 'slice_rest(%d,%d,%d)' % (size, start, stop)
+                if sorted(rest) == want:
+                    R5.ok(inst, sample='%s = %s' % (inst, rest), nontrivial=(n_sr % 8 == 0))
+                else:
+                    R5.violation(inst, 'slice_rest:%s' % ('middle' if start and stop < size else 'low' if not start else 'high'),
+                                 '%s returns %s; the bits of the register outside [%d:%d) are %s' % (inst, rest, start, stop, want), where(ex, sr),
+                                 witness="'mov ah, 1' lifts to a 16-bit value assigned to eax")
+
+    def mkobj(cls, **kw):
+        o = Obj(cls)
+        o._class = cls
+        for k, v in kw.items():
+            setattr(o, k, v)
+        return o
+    cls_slice = Native(lambda arg, start, stop: mkobj('ExprSlice', arg=arg, start=start, stop=stop))
+    cls_comp = Native(lambda lst: mkobj('ExprCompose', args=lst))
+    env = {'slice_rest': sr, 'ExprSlice': cls_slice, 'ExprCompose': cls_comp}
+    env['isinstance'] = Native(lambda v, c: isinstance(v, Obj) and v.__dict__['_attrs'].get('_class') == ('ExprSlice' if c is cls_slice else 'ExprCompose' if c is cls_comp else None))
+    for size, start, stop in ((32, 0, 8), (32, 8, 16), (32, 0, 16), (32, 16, 32), (16, 8, 16), (32, 0, 1), (32, 31, 32), (64, 32, 64)):
+        reg = mkobj('ExprId', size=size)
+        src = mkobj('value')
+        me = Obj('self')
+        inst = 'ExprAff(reg%d[%d:%d], v)' % (size, start, stop)
+        try:
+            Evaluator(env).call_user(init, [me, mkobj('ExprSlice', arg=reg, start=start, stop=stop), src])
+            dstv, srcv = me.dst, me.src
+        except NotConst as e:
+            raise AnalysisError('ExprAff.__init__ is outside the evaluable subset: %s' % e)
+        problems = []
+        if dstv is not reg:
+            problems.append('destination is not the sliced register itself')
+        parts = getattr(srcv, 'args', None) if isinstance(srcv, Obj) and srcv.__dict__['_attrs'].get('_class') == 'ExprCompose' else None
+        if parts is None:
+            problems.append('source is not a concatenation')
+        else:
+            pos = 0
+            for e_, a_, b_ in parts:
+                if a_ != pos:
+                    problems.append('slot [%d:%d) does not start where the previous one ends (%d)' % (a_, b_, pos))
+                    break
+                if (a_, b_) == (start, stop):
+                    if e_ is not src:
+                        problems.append('slot [%d:%d) does not hold the assigned value' % (a_, b_))
+                else:
+                    c_ = e_.__dict__['_attrs'] if isinstance(e_, Obj) else {}
+                    if not (c_.get('_class') == 'ExprSlice' and c_.get('arg') is reg and (c_.get('start'), c_.get('stop')) == (a_, b_)):
+                        problems.append('slot [%d:%d) is not the unchanged bits reg[%d:%d]' % (a_, b_, a_, b_))
+                pos = b_
+            if not problems and pos != size:
+                problems.append('the slots cover [0:%d) of a %d-bit register' % (pos, size))
+        if problems:
+            R5.violation(inst, 'aff-slice:%s' % '; '.join(problems)[:90], '%s: %s' % (inst, '; '.join(problems)), where(ex, init))
+        else:
+            R5.ok(inst, sample='%s -> reg = Compose(unchanged low bits, v, unchanged high bits), slots tile [0:%d)' % (inst, size))
     report.analysed['instances'] = len(L.instances)
     report.analysed['without_lifted_semantics'] = n_nosem
     report.analysed['mnemo_func_entries'] = len(L.mnemo_func)
 
 
 MUTANTS = [
+    ('slice-rest-elif', 'miasmx/expression/expression.py', "    if start !=0:\n        rest.append((0, start))\n    if stop < size:", "    if start !=0:\n        rest.append((0, start))\n    elif stop < size:", 'C11.D5'),
+    ('aff-slice-unsorted', 'miasmx/expression/expression.py', "all_a = sorted([(src, dst.start, dst.stop)] + rest, key=lambda x:x[1])", "all_a = [(src, dst.start, dst.stop)] + rest", 'C11.D5'),
     ('movzx-slot', 'miasmx/arch/ia32_sem.py', "                                    (b, 0, b.get_size())]))]", "                                    (b, 8, b.get_size())]))]", 'C11.D3'),
     ('xchg-double', 'miasmx/arch/ia32_sem.py', "    e.append(ExprAff(a, b))\n    e.append(ExprAff(b, a))\n    return e\n\ndef movzx", "    e.append(ExprAff(a, b))\n    e.append(ExprAff(a, a))\n    return e\n\ndef movzx", 'C11.D4'),
     ('lea-unbound', 'miasmx/arch/ia32_sem.py', "    return [ExprAff(a, b.arg)]", "    return [ExprAff(a, bb.arg)]", 'C11.D1'),
@@ -233,5 +307,5 @@ MUTANTS = [
     ('stc-not-list', 'miasmx/arch/ia32_sem.py', "def stc(info):\n    return     [ExprAff(cf, ExprInt32(1))]", "def stc(info):\n    return     ExprAff(cf, ExprInt32(1))", 'C11.D2'),
     ('cmov-arity', 'miasmx/arch/ia32_sem.py', "def cmovs(info, a, b):", "def cmovs(info, a, b, c):", 'C11.D1'),
     ('neg-slice', 'miasmx/arch/ia32_sem.py', "def update_flag_nf(a):\n    return [ExprAff(nf, get_op_msb(a))]", "def update_flag_nf(a):\n    return [ExprAff(nf, a[a.get_size():a.get_size()+1])]", 'C11.D'),
-    ('mnemo-func-wrong', 'miasmx/arch/ia32_sem.py', "              'lahf': lahf,", "              'lahf': sahf_,", 'C11.D'),
+    ('mnemo-func-wrong', 'miasmx/arch/ia32_sem.py', '"lahf": lahf,', '"lahf": push,', 'C11.D'),
 ]
